@@ -59,6 +59,14 @@ REFS = {
     'dictcomp': ['result_value = {comp_key: target_name for comp_key in range(2)}'],
     'comp_walrus_use': ['result_value = [(walrus_var := comp_var + target_name) for comp_var in range(3)]', 'print(walrus_var)'],
     'default_arg': ['def inner_function(inner_param=target_name):', '    return inner_param'],
+    'default_arg_rebind': ['def inner_function(inner_param=target_name):', '    target_name = 7', '    return inner_param, target_name, target_name'],
+    'kwonly_default': ['def inner_function(*, inner_param=target_name):', '    return inner_param'],
+    'kwonly_default_rebind': ['def inner_function(first_param=1, *, inner_param=target_name, other_param=target_name):', '    target_name = first_param * 2',
+                              '    return inner_param, other_param, target_name, target_name'],
+    'lambda_kwonly_default': ['inner_lambda = lambda *, lambda_param=target_name: lambda_param'],
+    'annotation_rebind': ['def inner_function(inner_param: target_name = None, *rest: target_name, **more: target_name) -> target_name:', '    target_name = 7', '    return target_name'],
+    'decorator_rebind': ['@target_name', 'def inner_function():', '    target_name = 7', '    return target_name'],
+    'class_base': ['class InnerClass(target_name, metaclass=target_name):', '    target_name = 2'],
     'decorator': ['@target_name', 'def inner_function():', '    pass'],
     'annotation': ['def inner_function(inner_param: target_name) -> target_name:', '    return inner_param'],
     'base_class': ['class InnerClass(target_name):', '    pass'],
